@@ -117,6 +117,7 @@ structure Target where
   isTest : Bool := false                            -- `Test != nil`
   testOutputs : List Bytes := []
   testSandbox : Bool := false
+  testNoOutput : Bool := false                      -- `Test.NoOutput`
   testCommand : Bytes := []
   testCommands : Option (List (Bytes × Bytes)) := none
   testArgsPlaceholder : Bytes := []
@@ -134,6 +135,7 @@ structure Ctx where
   config : Bytes := [111, 112, 116]                 -- "opt"
   fallback : Bytes := [111, 112, 116]
   environ : List (Bytes × Bytes) := []
+  hashCheckers : List Bytes := []                   -- `[build] hashcheckers` (read when the target declares hashes)
   deriving DecidableEq, Repr
 
 def Ctx.getenv (c : Ctx) (k : Bytes) : Bytes := (lookup k c.environ).getD []
@@ -146,6 +148,7 @@ inductive SAttr where
 inductive LAttr where
   | deps | visibility | hashes | sources | outs | licences | optionalOuts | labels | secrets | requires
   | outputDirs | data | testOutputs
+  | hashCheckers   -- `state.Config.Build.HashCheckers`
   deriving DecidableEq, Repr
 inductive GAttr where
   | namedOuts | provides
@@ -155,7 +158,7 @@ inductive MAttr where
   deriving DecidableEq, Repr
 inductive BAttr where
   | isBinary | isSubrepo | sandbox | needsTransitiveDeps | outputIsComplete | stamp | isFilegroup | isTextFile
-  | isRemoteFile | isLocal | srcListFiles | exitOnError | preBuild | postBuild | testSandbox
+  | isRemoteFile | isLocal | srcListFiles | exitOnError | preBuild | postBuild | testSandbox | testNoOutput
   deriving DecidableEq, Repr
 
 /-- One recognised write idiom of `ruleHash`. -/
@@ -171,6 +174,7 @@ inductive Item where
 
 inductive Guard where
   | always | runtime | runtimeTest     -- `if runtime {…}` / `if runtime { if target.IsTest() {…} }`
+  | hasHashes                          -- `if len(target.Hashes) > 0 {…}`
   deriving DecidableEq, Repr
 
 /-- Everything the extractor reads from the source. -/
@@ -237,6 +241,7 @@ def view (F : Facts) (c : Ctx) (t : Target) : View where
     | .outputDirs => t.outputDirs
     | .data => allInputs F t.data t.namedData
     | .testOutputs => t.testOutputs
+    | .hashCheckers => c.hashCheckers
   groups
     | .namedOuts => keysOrder F.outputNamesSorted t.namedOuts
     | .provides => keysOrder F.providesSorted (t.provides.map fun kv => (kv.1, kv.2.map Label.str))
@@ -250,6 +255,7 @@ def view (F : Facts) (c : Ctx) (t : Target) : View where
     | .isRemoteFile => t.isRemoteFile | .isLocal => t.isLocal | .srcListFiles => t.srcListFiles
     | .exitOnError => t.exitOnError | .preBuild => t.preBuild | .postBuild => t.postBuild
     | .testSandbox => t.testSandbox
+    | .testNoOutput => t.testNoOutput
   passEnv := t.passEnv
   isTest := t.isTest
 
@@ -270,6 +276,7 @@ def guardOn (c : Ctx) (v : View) : Guard → Bool
   | .always => true
   | .runtime => c.runtime
   | .runtimeTest => c.runtime && v.isTest
+  | .hasHashes => !(v.list .hashes).isEmpty
 
 def serGuarded (F : Facts) (c : Ctx) (v : View) (gi : Guard × Item) : Bytes :=
   if guardOn c v gi.1 then serItem F c v gi.2 else []
